@@ -20,8 +20,8 @@ from sim.world import environment_artefact, HarnessError, StepCap, Quiescent
 
 PROP = "C12"
 LEVEL = "fault_enumeration"
-COUNTS = {"quick": 15000, "thorough": 600000}
-MAX_SECONDS = {"quick": 100, "thorough": 1500}
+COUNTS = {"quick": 10000, "thorough": 600000}
+MAX_SECONDS = {"quick": 120, "thorough": 1500}
 DET_EVERY = {"quick": 30, "thorough": 300}
 SHRINK_BUDGET = 500
 LIST_KEYS = ("tree",)
